@@ -94,7 +94,7 @@ func genC10(t *rapid.T) c10Case {
 	c := c10Case{Prog: g.p}
 	n := rapid.IntRange(3, 8).Draw(t, "ntemplates")
 	for i := 0; i < n; i++ {
-		kind := rapid.SampledFrom([]string{"ordinary", "failing", "failing", "probing", "probing", "embprobe", "returning", "nested-ranges", "trying", "publishing", "relinclude", "positional", "ptrmethod", "mapbuilder", "swallowing", "bumping"}).Draw(t, "kind")
+		kind := rapid.SampledFrom([]string{"ordinary", "failing", "failing", "probing", "probing", "embprobe", "returning", "nested-ranges", "trying", "publishing", "relinclude", "positional", "ptrmethod", "mapbuilder", "swallowing", "bumping", "layoutuser", "layoutuser", "blocklesschild"}).Draw(t, "kind")
 		path := c10EntryPath(i, kind)
 		var body []*mj.Node
 		rt := mj.Print(mj.Call("rtprobe"))
@@ -115,6 +115,24 @@ func genC10(t *rapid.T) c10Case {
 				inner = []*mj.Node{{K: "try", Body: g.path(1, inner), HasCatch: true, Catch: []*mj.Node{mj.Text("(caught)")}}}
 			}
 			body = g.path(depth, inner)
+		case "layoutuser", "blocklesschild":
+			// a layout, a child of it that has no blocks of its own but imports a library with a block of the layout's
+			// name, and pages that render the layout itself: loading the child must not change the layout
+			have := false
+			for _, f := range g.p.Files {
+				have = have || f.Path == "/lay/shared-layout.jet"
+			}
+			if !have {
+				g.p.Files = append(g.p.Files,
+					&mj.File{Path: "/lay/shared-layout.jet", Body: []*mj.Node{mj.Text("<L:"), {K: "block", Name: "lbody", Body: []*mj.Node{mj.Text("default body")}}, mj.Text("|"), {K: "block", Name: "lside", Body: []*mj.Node{mj.Text("default side")}}, mj.Text(">")}},
+					&mj.File{Path: "/lay/theme.jet", Body: []*mj.Node{{K: "block", Name: "lbody", Body: []*mj.Node{mj.Text("themed body")}}}},
+					&mj.File{Path: "/lay/child.jet", Extends: "/lay/shared-layout.jet", Imports: []string{"/lay/theme.jet"}})
+			}
+			if kind == "layoutuser" {
+				body = []*mj.Node{mj.Text("(layout:"), {K: "include", E: mj.Str("/lay/shared-layout.jet")}, mj.Text(")")}
+			} else {
+				body = []*mj.Node{mj.Text("(child:"), {K: "include", E: mj.Str("/lay/child.jet")}, mj.Text(")")}
+			}
 		case "bumping":
 			// a counter initialised from a literal and incremented by a Go helper: every execution starts from the literal
 			body = []*mj.Node{mj.Let("count", mj.Num(float64(rapid.IntRange(0, 2).Draw(t, "bumpFrom")))), mj.Print(mj.Call("bump", mj.Str("count"))), mj.Text("(count="), mj.Print(mj.Var("count")), mj.Text(")"),
